@@ -77,8 +77,14 @@ class C01(fc.FlowCheck):
         redirected = any(e[0] == 'SetResponseOfExc' for e in obs['journal']) and obs['status'] and 300 <= obs['status'] < 400
         last_req = obs['requests']
         unexpected_last = any(self._site_req(obs, r[0]) == last_req for r in unexpected) or hook_unexp
-        bad_body = sc['body'] in ('str', 'int') and not sc['stream'] and self._handler_ran_in(obs, last_req) \
-            and not any(f[0] == 'Handler' for f in sc['faults'])
+        # the handler's own unusable return value is an unexpected failure only where it is actually used: a str at the
+        # body assignment (unless an injected fault pre-empted the handler), a non-iterable at the finalize() that
+        # follows the handler (unless an injected fault pre-empted that finalize and an error page replaced the body)
+        bad_body = not sc['stream'] and self._handler_ran_in(obs, last_req) and (
+            (sc['body'] == 'str' and not any(f[0] == 'Handler' for f in sc['faults'])) or
+            (sc['body'] == 'int' and any(not any(f[0] == 'Finalize' and f[1] == k for f in sc['faults'])
+                                         for k in self.finalize_after_handler(obs)
+                                         if self._finalize_req(obs, k) == last_req)))
         if (unexpected_last or bad_body) \
                 and not esc and obs['status'] and obs['status'] < 500 and not redirected and obs['requests'] <= 1:
             fails.append(('unexpected-not-5xx', 'an unexpected failure was answered with %r' % obs['status']))
@@ -105,6 +111,15 @@ class C01(fc.FlowCheck):
         for e in obs['journal']:
             if e[0] == action:
                 return e[1]
+        return 0
+
+    def _finalize_req(self, obs, k):
+        n = 0
+        for e in obs['journal']:
+            if e[0] == 'Finalize':
+                if n == k:
+                    return e[1]
+                n += 1
         return 0
 
     def _handler_ran_in(self, obs, r):
